@@ -19,6 +19,17 @@ Proof.
   - rewrite (N.compare_antisym b a). destruct (N.compare b a); cbn; [apply IH|reflexivity|reflexivity].
 Qed.
 
+Lemma filter_none' {A} (f : A -> bool) l : (forall x, In x l -> f x = false) -> filter f l = [].
+Proof.
+  induction l as [|x r IH]; intros H; cbn; [reflexivity|].
+  rewrite (H x (or_introl eq_refl)). apply IH. intros y Hy; apply H; right; exact Hy.
+Qed.
+Lemma filter_all' {A} (f : A -> bool) l : (forall x, In x l -> f x = true) -> filter f l = l.
+Proof.
+  induction l as [|x r IH]; intros H; cbn; [reflexivity|].
+  rewrite (H x (or_introl eq_refl)). f_equal. apply IH. intros y Hy; apply H; right; exact Hy.
+Qed.
+
 Lemma filter_filter_and' {A} (f g : A -> bool) l : filter g (filter f l) = filter (fun x => g x && f x) l.
 Proof.
   induction l as [|x r IH]; cbn; [reflexivity|]. destruct (f x); cbn; [destruct (g x); cbn; rewrite IH; reflexivity|rewrite andb_false_r; exact IH].
@@ -48,11 +59,11 @@ Proof.
   intros S. rewrite filter_app. cbn [filter].
   assert (Hx : key_ltb x x = false) by (unfold key_ltb; rewrite key_cmp_refl; reflexivity). rewrite Hx.
   assert (Hpre : filter (fun k => key_ltb x k) pre = []).
-  { apply filter_none. intros y Hy.
+  { apply filter_none'. intros y Hy.
     assert (L : key_lt y x) by (apply (ssorted_app_rel key_lt pre (x :: rest) S y x Hy); left; reflexivity).
     unfold key_ltb. unfold key_lt in L. rewrite (g_anti _ good_key y x), L. reflexivity. }
   rewrite Hpre. cbn. apply ssorted_app_r in S. inversion S as [|? ? _ F]; subst. rewrite Forall_forall in F.
-  apply filter_all. intros y Hy. apply key_ltb_lt. apply F; exact Hy.
+  apply filter_all'. intros y Hy. apply key_ltb_lt. apply F; exact Hy.
 Qed.
 
 Lemma filter_sorted_lt (f : key -> bool) l : StronglySorted key_lt l -> StronglySorted key_lt (filter f l).
@@ -66,7 +77,7 @@ Theorem paged_complete limit : (1 <= limit)%nat -> forall fuel lo hi keys,
   (length (filter (in_range lo hi) keys) < fuel)%nat ->
   paged fuel limit lo hi keys = Some (filter (in_range lo hi) keys).
 Proof.
-  intros Hl. induction fuel as [|fuel IH]; intros lo hi keys S Hf; [lia|].
+  intros Hl. induction fuel as [|fuel IH]; intros lo hi keys Sk Hf; [lia|].
   cbn [paged]. unfold load_range. destruct limit as [|n]; [lia|].
   set (F := filter (in_range lo hi) keys) in *.
   destruct (Nat.ltb_spec (length (firstn (S n) F)) (S n)) as [Hs|Hs].
@@ -78,14 +89,14 @@ Proof.
     destruct (last_key_In _ _ El) as [pre Epre].
     assert (EF : F = pre ++ l :: skipn (S n) F).
     { rewrite <- (firstn_skipn (S n) F) at 1. rewrite Epre, <- app_assoc. reflexivity. }
-    assert (SF : StronglySorted key_lt F) by (apply filter_sorted_lt; exact S).
+    assert (SF : StronglySorted key_lt F) by (apply filter_sorted_lt; exact Sk).
     assert (Hin : In l F) by (rewrite EF; apply in_or_app; right; left; reflexivity).
     apply filter_In in Hin as [_ Hrange]. unfold in_range in Hrange. apply andb_true_iff in Hrange as [Hlo Hhi].
     assert (Enext : filter (in_range (next_key l) hi) keys = skipn (S n) F).
     { rewrite <- (filter_gt_split pre l (skipn (S n) F)) by (rewrite <- EF; exact SF). rewrite <- EF.
       unfold F. rewrite filter_filter_and'. apply filter_ext. intros k. unfold in_range.
       rewrite next_key_succ, negb_involutive.
-      destruct (key_ltb l k) eqn:Elk; cbn [andb]; [|rewrite andb_false_r; reflexivity].
+      destruct (key_ltb l k) eqn:Elk; cbn [andb]; [|reflexivity].
       (* lo <= l < k *)
       assert (key_ltb k lo = false).
       { apply negb_true_iff in Hlo. unfold key_ltb in *.
@@ -95,8 +106,62 @@ Proof.
         - apply key_cmp_eq in E2. subst lo. rewrite (g_anti _ good_key l k), E3 in E1. discriminate.
         - assert (X : key_cmp lo l = Lt) by (apply (g_gt_lt _ good_key); exact E2).
           pose proof (g_trans _ good_key k lo l Lt E1 X) as Y. rewrite (g_anti _ good_key l k), E3 in Y. discriminate. }
-      rewrite H. cbn. destruct (key_ltb k hi); reflexivity. }
-    rewrite IH; [| exact S |].
+      rewrite H. reflexivity. }
+    rewrite IH; [| exact Sk |].
     + rewrite Enext. cbn [option_map]. f_equal. apply firstn_skipn.
     + rewrite Enext. rewrite skipn_length. rewrite firstn_length in Hlen. lia.
 Qed.
+
+Lemma filter_len_le {A} (f : A -> bool) l : (length (filter f l) <= length l)%nat.
+Proof. induction l as [|x r IH]; cbn; [lia|]. destruct (f x); cbn; lia. Qed.
+
+(* the page size the code uses (regenerated constant) is a legal one *)
+Lemma page_limit_pos : (1 <= page_limit)%nat.
+Proof. vm_compute. lia. Qed.
+
+(* LoadRangeByPrefix returns every key of [prefix, GetPrefixRangeEnd(prefix)) exactly once, in order *)
+Theorem load_range_by_prefix_complete prefix keys :
+  StronglySorted key_lt keys ->
+  load_range_by_prefix prefix keys = Some (filter (in_range prefix (prefix_end prefix)) keys).
+Proof.
+  intros S. unfold load_range_by_prefix. apply (paged_complete page_limit page_limit_pos); [exact S|].
+  pose proof (filter_len_le (in_range prefix (prefix_end prefix)) keys). lia.
+Qed.
+
+(* ... and that range is "has the prefix" (prefixes whose last byte is below 0xff, as rules/ and rule_group/) *)
+Lemma prefix_end_snoc q b : (b <? 255)%N = true -> prefix_end (q ++ [b]) = q ++ [(b + 1)%N].
+Proof.
+  intros H. unfold prefix_end. rewrite rev_app_distr. cbn. rewrite H. cbn. rewrite rev_involutive. reflexivity.
+Qed.
+
+Lemma prefix_range q : forall b k, in_range (q ++ [b]) (q ++ [(b + 1)%N]) k = is_prefix (q ++ [b]) k.
+Proof.
+  unfold in_range, key_ltb, key_cmp.
+  induction q as [|a q IH]; intros b k.
+  - destruct k as [|c t]; cbn; [reflexivity|].
+    destruct (N.compare_spec c b) as [E|E|E]; cbn.
+    + subst c. rewrite N.eqb_refl. cbn. destruct t; cbn; (destruct (N.compare_spec b (b + 1)) as [X|X|X]; try lia; reflexivity).
+    + destruct (N.eqb_spec b c); [lia|reflexivity].
+    + destruct (N.eqb_spec b c); [lia|]. cbn.
+      destruct (N.compare_spec c (b + 1)) as [X|X|X]; cbn; try lia; try reflexivity. destruct t; reflexivity.
+  - destruct k as [|c t]; cbn; [reflexivity|].
+    destruct (N.compare_spec c a) as [E|E|E]; cbn.
+    + subst c. rewrite N.eqb_refl. cbn. apply IH.
+    + destruct (N.eqb_spec a c); [lia|reflexivity].
+    + destruct (N.eqb_spec a c); [lia|reflexivity].
+Qed.
+
+Theorem load_by_prefix_all_with_prefix q b keys :
+  (b <? 255)%N = true -> StronglySorted key_lt keys ->
+  load_range_by_prefix (q ++ [b]) keys = Some (filter (is_prefix (q ++ [b])) keys).
+Proof.
+  intros Hb S. rewrite load_range_by_prefix_complete by exact S. rewrite prefix_end_snoc by exact Hb.
+  f_equal. apply filter_ext. intros k. apply prefix_range.
+Qed.
+
+(* why the seeded successor is wrong: GetPrefixRangeEnd(last) is not the successor of last — every key that
+   extends `last` lies strictly between them *)
+Example prefix_end_is_not_the_successor :
+  let l := [1]%N in let k := [1; 0]%N in
+  key_ltb l k = true /\ key_ltb k (prefix_end l) = true /\ key_ltb k (next_key l) = false.
+Proof. vm_compute. repeat split. Qed.
